@@ -15,13 +15,13 @@ PLAN = {
                 gen_q=("single,plain,err,flowretry,zerobudget", 130), gen_t=("single,plain,err,flowretry,zerobudget", 3500)),
     "C03": dict(mc_q=[("flow2", 1, 4), ("rerun", 1, 4), ("flow2empty", 1, 3), ("dynwire", 1, 4), ("emptyconn", 1, 4)],
                 mc_t=[("flow2", 1, 6), ("rerun", 1, 5), ("flow2empty", 1, 5), ("nest", 1, 3), ("dynwire", 1, 5), ("emptyconn", 1, 6)],
-                gen_q=("plain,nest,dynwire", 160), gen_t=("plain,nest,err,dynwire", 3200)),
+                gen_q=("plain,nest,dynwire,zs", 130), gen_t=("plain,nest,err,dynwire,zs", 2600)),
     "C04": dict(mc_q=[("flowerr", 2, 3), ("nesterr", 2, 3), ("nilstart", 1, 3), ("flowbatch", 2, 4)],
                 mc_t=[("flowerr", 2, 5), ("nesterr", 2, 4), ("nilstart", 1, 4), ("single", 4, 4), ("flowbatch", 2, 5)],
                 gen_q=("faultenum,err", 60), gen_t=("faultenum,err,nilstart", 800)),
     "C05": dict(mc_q=[("singlecancel", 2, 4), ("flowcancel", 2, 3), ("flowbatch", 2, 4)],
                 mc_t=[("singlecancel", 3, 4), ("flowcancel", 2, 4), ("flowbatch", 2, 5)],
-                gen_q=("cancelenum,cancel", 60), gen_t=("cancelenum,cancel", 800)),
+                gen_q=("cancelenum,cancel,zerocancel", 60), gen_t=("cancelenum,cancel,zerocancel", 800)),
     "C10": dict(mc_q=[("nestsmall", 1, 4), ("nesterr", 2, 3), ("flowretry", 1, 5)],
                 mc_t=[("nest", 1, 5), ("nest3", 1, 5), ("nesterr", 2, 4), ("flowretry", 1, 6)],
                 gen_q=("nest,flowretry,longloop", 180), gen_t=("nest,err,flowretry,longloop", 3000)),
@@ -34,7 +34,7 @@ PLAN = {
                 gen_q=("single,plain", 200), gen_t=("single,plain,err", 4000)),
     "C18": dict(mc_q=[("single", 2, 4), ("flow2empty", 1, 4), ("flowbatch", 2, 4), ("nestsmall", 1, 3), ("singlecancel", 2, 4)],
                 mc_t=[("single", 3, 4), ("flow2empty", 1, 6), ("nest", 1, 4), ("singlecancel", 3, 4), ("flowcancel", 2, 4), ("flowbatch", 2, 5)],
-                gen_q=("single,plain,nest,cancel,panic", 110), gen_t=("single,plain,nest,cancel,cancelenum,panic", 2200)),
+                gen_q=("single,plain,nest,cancel,panic,zerobudget", 100), gen_t=("single,plain,nest,cancel,cancelenum,panic,zerobudget", 2000)),
 }
 
 
@@ -88,11 +88,20 @@ def collect(pid, tier, seed, d, binp):
     # 2. replay the behaviours on the real library (built from /repo's working tree), run random scenarios
     hist = os.path.join(d, "hist.ndjson")
     cap = 5000 if tier == "quick" else 40000
-    run_harness(binp, ["engine", "--scn", scnp, "--out", hist, "--seed", str(seed), "--count", str(count), "--modes", modes,
-                       "-x", "maxscn=%d" % cap])
+    crash = run_harness(binp, ["engine", "--scn", scnp, "--out", hist, "--seed", str(seed), "--count", str(count), "--modes", modes,
+                               "-x", "maxscn=%d" % cap], tolerate_crash=True)
+    if crash:
+        # (a callback that panics in a goroutine the library started cannot be recovered by anybody: the process dies)
+        with open(hist) as f:
+            good = [l for l in f.read().split("\n") if l.endswith("}")]
+        with open(hist, "w") as f:
+            f.write("\n".join(good) + ("\n" if good else ""))
+        log("the harness process crashed inside the library under test; judging the %d histories recorded before the crash" % len(good))
 
     # 3. verdict: TLC evaluates the property's predicate on every recorded history
     fails, drifts, summ = judge_histories(d, "TPEngine", hist, pid, shards=8)
+    if crash and not [f_ for f_ in fails if f_[1] == pid]:
+        raise ToolFailure(crash)
     log("judged %d histories (%d events): %d failing, %d drifting from the exported behaviour" %
         (summ.get("scenarios", 0), summ.get("events", 0), len(fails), len(drifts)))
 
@@ -102,7 +111,7 @@ def collect(pid, tier, seed, d, binp):
     transitions += tv_trans
     unexplained = tv_n - len(tv_ok)
     log("trace validation against FlytEngine: %d of %d histories explained" % (len(tv_ok), tv_n))
-    if "zerobudget" in modes:
+    if "zerobudget" in modes or "zerocancel" in modes:
         # budgets below one are outside every property: no verdict, but the specification must explain what the code does
         shutil.copy(hist, hist + ".zero")
         # (a flow with such a budget does nothing and answers the default action: on a cycle of its parent it spins for ever
@@ -150,8 +159,10 @@ def collect(pid, tier, seed, d, binp):
                 known_hits[sig] = known[sig]
             else:
                 violations.append({"property": pid, "family": "engine", "clauses": clauses, "signature": sig, "scenario": scns[scn_id]})
-    if unconfirmed:
+    if unconfirmed and not violations and not known_hits:
         raise ToolFailure("%d failing histories did not fail again on re-execution (non-deterministic harness?)" % unconfirmed)
+    if unconfirmed:
+        log("%d failing histories did not fail again on re-execution and were dropped (%d did)" % (unconfirmed, len(violations)))
 
     samples = []
     try:
@@ -171,7 +182,7 @@ def collect(pid, tier, seed, d, binp):
                 drifts=len(drifts) + unexplained, mc_info=mc_info, samples=samples, exported=len(scn_lines), modes=modes, count=count)
 
 
-WITH_BATCH = {"C02", "C04", "C17", "C18"}
+WITH_BATCH = {"C02", "C03", "C04", "C17", "C18"}
 
 
 def run(pid, tier, seed):
@@ -180,7 +191,7 @@ def run(pid, tier, seed):
     d = outdir(pid)
     binp = build_harness(d)
     parts = [("engine", collect(pid, tier, seed, d, binp))]
-    if pid in ("C01", "C18"):
+    if pid in ("C01", "C17", "C18"):
         import fam_tables
         parts.append(("defaults", fam_tables.collect_defaults(pid, tier, seed, d, binp)))   # nodes that provide only some phases
     if pid in WITH_BATCH:
